@@ -67,4 +67,17 @@ PROPS = {
         "thorough": {"cases": 20000, "shards": 16, "shrinktime": "120s", "timeout_s": 3000},
         "assumptions": RUN_ASSUME,
     },
+    "C18": {
+        "test": "TestC18", "binary": "plain", "level": "exploration", "env": {"VERIF_RLIMIT_AS_MB": "4096"},
+        "rule": "for each of the 19 built-in functions, argument lists drawn from the declared parameter schemas (boundary classes: NaN, "
+                "+-Inf, +-0, subnormal, +-2^63 neighbourhood, extreme ints, empty / non-ASCII / long strings, decimal strings around the int64 "
+                "limits, nested lists and maps) are executed in a worker process under RLIMIT_AS; oracle = no panic / process death, result "
+                "validates against Output(parameter types), two calls agree, and the independent laws (floatToInt truncates/saturates/is monotonic, "
+                "X->string->X round trips, case/split definitions, ceil/floor/round/abs = math.*, bindConstants pairing). "
+                "non-trivial = the argument list contains a boundary-class value; distinct = FNV-64 of (law, function, arguments)",
+        "quick": {"cases": 36000, "shards": 12, "shrinktime": "20s"},
+        "thorough": {"cases": 960000, "shards": 16, "shrinktime": "60s", "timeout_s": 3000},
+        "assumptions": ["arguments that do not satisfy the declared parameter schema are outside the property's domain and are not counted",
+                        "strings are valid UTF-8 (they reach the functions from YAML or CBOR text)"],
+    },
 }
